@@ -250,13 +250,20 @@ fn run() -> ! {
         for pair in pairs {
             match pair.as_rule() {
                 Rule::statement => {
-                    if let Some(inner_pair) = pair.into_inner().next() {
+                    let mut inner_pairs = pair.into_inner();
+                    if let Some(inner_pair) = inner_pairs.next() {
+                        // End-of-line comment (second element of the statement)
+                        let eol_comment = match inner_pairs.next() {
+                            Some(p) if p.as_rule() == Rule::comment => format!("  {}", p.as_str()),
+                            _ => String::new(),
+                        };
                         match inner_pair.as_rule() {
                             Rule::expression => {
                                 match pairs_to_expr_with_comments(inner_pair.into_inner()) {
                                     Ok(expr) => {
                                         let formatted = format_expr(&expr, None);
                                         formatted_output.push_str(&formatted);
+                                        formatted_output.push_str(&eol_comment);
                                         formatted_output.push('\n');
                                     }
                                     Err(e) => {
@@ -274,6 +281,7 @@ fn run() -> ! {
                                         });
                                         let formatted = format_expr(&output_expr, None);
                                         formatted_output.push_str(&formatted);
+                                        formatted_output.push_str(&eol_comment);
                                         formatted_output.push('\n');
                                     }
                                     Err(e) => {
@@ -285,6 +293,7 @@ fn run() -> ! {
                             Rule::comment => {
                                 // Preserve comments as-is
                                 formatted_output.push_str(inner_pair.as_str());
+                                formatted_output.push_str(&eol_comment);
                                 formatted_output.push('\n');
                             }
                             _ => {}
